@@ -42,7 +42,7 @@ def validate(cases, report, name):
     path = os.path.join(scratch(), f"{name}.pcases.json")
     with open(path, "w") as f:
         json.dump({"cases": cases}, f)
-    st = tlc.run("Trace_Parse", env={"JASM_CASES": path}, dump=True, heap="16g")
+    st = tlc.run("Trace_Parse", env={"JASM_CASES": path}, dump=True, heap="16g", timeout=7200)
     report.add_tlc(st, f"validate {name}")
     verdicts = [None] * len(cases)
     for s in tlc.read_dump(st["dump"]):
